@@ -15,7 +15,7 @@ cargo test -p marginfi --lib "$FILTER" --offline 2>&1 | grep -E "^test |^test re
 git apply $SRC/patch.diff || { echo "RESULT patch.diff does not apply"; exit 9; }
 cargo test -p marginfi --lib "$FILTER" --offline 2>&1 | grep -E "^test |^test result|error(\[|:)" > /tmp/ver/$NAME.demo_mut.txt
 git apply -R $SRC/demo.diff
-cargo test --workspace --no-fail-fast --offline 2>&1 | grep -E "^test result|error(\[|:)" > /tmp/ver/$NAME.suite_mut.txt
+cargo test --workspace --lib --no-fail-fast --offline 2>&1 | grep -E "^test result|error(\[|:)" > /tmp/ver/$NAME.suite_mut.txt
 echo "== demo on clean tree:"; grep "test result" /tmp/ver/$NAME.demo_clean.txt
 echo "== demo with mutation:"; grep -E "FAILED|test result" /tmp/ver/$NAME.demo_mut.txt | head -8
 echo "== suite with mutation:"; head -8 /tmp/ver/$NAME.suite_mut.txt
